@@ -140,3 +140,18 @@ func harnessFailure(runErr, readErr error) bool {
 	}
 	return readErr != nil
 }
+
+// purgeDirect calls cache.RemoveHTTPCache the way the admin handler does, under a watchdog: a purge that does
+// not come back (it must never wait for a fetch or for a request) is reported instead of hanging the check.
+func purgeDirect(r *hx.Run, cacheName, key string, params map[string]string) bool {
+	done := make(chan struct{})
+	go func() { defer close(done); cache.RemoveHTTPCache(cacheName, []byte(key)) }()
+	select {
+	case <-done:
+		return true
+	case <-time.After(20 * time.Second):
+		hangSeen(r)
+		r.Violate("purge_blocked", params, "a purge of the key did not return within 20 s", map[string]interface{}{"key": key, "blocked_goroutines": pikeGoroutines()}, nil)
+		return false
+	}
+}
